@@ -376,6 +376,23 @@ def run_gatefuzz(case, ctx):
             info = str(e)
         ctx.check("gate_constructor_rejects", ok, f"malformed gate accepted: {label}", {"kwargs": repr(kw), "result": info})
         ctx.nontrivial(("bad", label))
+    # every built-in gate name with a wrong number of targets (with the controls it needs) must be rejected
+    right = {nm: 1 for nm in gen.ONE_Q_FIXED + gen.ONE_Q_ROT + gen.CTRL_FIXED + gen.CTRL_ROT}
+    right.update({"XX": 2, "SWAP": 2, "CSWAP": 2})
+    for nm, k_ok in sorted(right.items()):
+        controlled = nm in gen.CTRL_FIXED or nm in gen.CTRL_ROT or nm == "CSWAP"
+        for k in (1, 2, 3):
+            if k == k_ok:
+                continue
+            for nc in ((1, 2) if controlled else (0,)):
+                qs = list(range(k + nc))
+                kw = dict(name=nm, target=qs[:k], control=(qs[k:] if nc else None), parameter=(0.3 if nm in gen.PARAM else ""))
+                try:
+                    g = Gate(**kw)
+                    ok, info = False, str(g)
+                except (ValueError, TypeError) as e:
+                    ok, info = True, str(e)
+                ctx.check("gate_constructor_rejects", ok, f"gate {nm} accepted with {k} target(s) and {nc} control(s)", {"kwargs": repr(kw), "result": info})
     # valid gates with list / ndarray / numpy-int index containers must be accepted and normalised to lists of ints
     for _ in range(20):
         n = pr.randint(2, 6)
